@@ -1,7 +1,51 @@
 """Concrete replay for C08 (Python register file)."""
 
 
+def replay_rust(rec):
+    from engines.rsym import build
+    from checks.regfile_check import RS_REGS, RS_BASE, RS_MASKS
+
+    inputs = {int(k): v for k, v in rec["inputs"].items()}
+    r = build.run_replay("harness_regfile", inputs, {})
+    st = {"BA": 0, "I": 0, "X": 0, "Y": 0, "U": 0, "S": 0, "PC": 0, "F": 0, "TEMP3": 0, "TEMP5": 0, "IMR": 0}
+    seq = [(n, inputs[i]) for i, n in enumerate(RS_BASE)] + [("TEMP3", inputs[8]), ("TEMP5", inputs[9])]
+    seq += [(w, inputs[42 + 2 * k]) for k, w in enumerate(rec["writes"])]
+    for name, v in seq:
+        if name == "A":
+            st["BA"] = (st["BA"] & 0xFF00) | (v & 0xFF)
+        elif name == "B":
+            st["BA"] = (st["BA"] & 0x00FF) | ((v & 0xFF) << 8)
+        elif name == "IL":
+            st["I"] = v & 0xFF
+        elif name == "IH":
+            st["I"] = (st["I"] & 0xFF) | ((v & 0xFF) << 8)
+        elif name in ("I", "BA"):
+            st[name] = v & 0xFFFF
+        elif name in ("X", "Y", "U", "S", "PC"):
+            st[name] = v & 0xFFFFF
+        elif name in ("F", "IMR"):
+            st[name] = v & 0xFF
+        elif name == "FC":
+            st["F"] = (st["F"] & 0xFE) | (v & 1)
+        elif name == "FZ":
+            st["F"] = (st["F"] & 0xFD) | ((v & 1) << 1)
+        else:
+            st[name] = v & 0xFFFFFF
+    want = {"A": st["BA"] & 0xFF, "B": st["BA"] >> 8, "IL": st["I"] & 0xFF, "IH": st["I"] >> 8, "FC": st["F"] & 1, "FZ": (st["F"] >> 1) & 1}
+    bad = []
+    for i, n in enumerate(RS_REGS):
+        w = want.get(n, st.get(n))
+        if r["out"].get(i) != w:
+            bad.append(f"{n}: rust {r['out'].get(i)} want {w}")
+        if r["out"].get(20 + i) != RS_MASKS[n]:
+            bad.append(f"mask_for {n}: {r['out'].get(20 + i)}")
+    print("native rust register file:", bad[:6])
+    return bool(bad)
+
+
 def replay(rec):
+    if rec.get("rust"):
+        return replay_rust(rec)
     from sc62015.pysc62015.emulator import Registers, RegisterName
     from sc62015.pysc62015.stepper import CPURegistersSnapshot
     from checks.regfile_check import READ_NAMES, BASE
